@@ -567,6 +567,14 @@ func c05CMalformationsFor(n *c05Cnode, isRoot bool) []c05CMalformation {
 		}
 		add("long-4k", mk(c05Rep(0xff, 4096)))
 		lazy("long-1M", func() *c05Cnode { return mk(c05Rep(0x01, 1<<20)) })
+		// the genuine value with 256 KiB of zero padding (same value, huge ANNOUNCED size): in front (unsigned encodings) and
+		// after the first byte (sign-prefixed encodings); work must not grow with the padding
+		if len(b) >= 2 {
+			lazy("pad-front-256k", func() *c05Cnode { return mk(append(c05Rep(0, 256<<10), b...)) })
+			lazy("pad-after-sign-256k", func() *c05Cnode {
+				return mk(append(append([]byte{b[0]}, c05Rep(0, 256<<10)...), b[1:]...))
+			})
+		}
 		add("one-byte-0", mk([]byte{0}))
 		add("one-byte-1", mk([]byte{1}))
 		if n.Major == 3 {
